@@ -84,6 +84,32 @@ theorem displayed_listing_reassembles (s s' : St) (text : String) (marks marks' 
   rw [h2]
   exact listing_text_independent _ _ _
 
+/-- The listing follows the instruction memory: after `write_instruction(4k, i)` (k at most the program length) the
+    listing has a row `k` that shows the printed form of `i` at address `4k`, every other row that existed before is
+    unchanged, and the table has grown by one row exactly when the instruction was appended. -/
+theorem listing_after_write_instruction (im im' : IMem) (k : Nat) (i : Instr) (marks : Marks)
+    (h : writeInstr im k i = some im') :
+    (listing im'.prog marks)[k]? = some (listRow marks k i) ∧
+    (∀ j, j ≠ k → j < im.prog.length → (listing im'.prog marks)[j]? = (listing im.prog marks)[j]?) ∧
+    (listing im'.prog marks).length = (if k < im.prog.length then im.prog.length else im.prog.length + 1) := by
+  unfold writeInstr at h
+  split at h
+  · next hk =>
+    obtain rfl : im' = { im with prog := im.prog.set k i } := by simpa using h.symm
+    refine ⟨?_, fun j hj hjl => ?_, ?_⟩
+    · simp [listing_getElem?, List.getElem?_set, hk]
+    · simp [listing_getElem?, List.getElem?_set, Ne.symm hj]
+    · simp [listing_length, hk]
+  · next hk =>
+    split at h
+    · next hk2 =>
+      obtain rfl : im' = { im with prog := im.prog ++ [i] } := by simpa using h.symm
+      refine ⟨?_, fun j hj hjl => ?_, ?_⟩
+      · simp [listing_getElem?, hk2]
+      · simp [listing_getElem?, List.getElem?_append_left hjl]
+      · simp [listing_length, hk]
+    · cases h
+
 /-! ### non-vacuity -/
 
 -- the listing of `addi x1, x0, 5 ; sw x3, 8(x2)` while the first instruction is in ID (addresses and stage column)
